@@ -78,15 +78,20 @@ Qed.
 Lemma list_sum_map_add {A} (f g : A -> nat) l : list_sum (map (fun v => (f v + g v)%nat) l) = (list_sum (map f l) + list_sum (map g l))%nat.
 Proof. induction l; simpl; [reflexivity | rewrite IHl; lia]. Qed.
 
-(* the degrees add up to twice the number of edges; a self-loop contributes 2 to its node *)
-Theorem handshake g : graph_wf g -> list_sum (degrees g) = (2 * length (g_edges g))%nat.
+Lemma handshake_lists nodes es : NoDup nodes ->
+  (forall e, In e es -> In (fst e) nodes /\ In (snd e) nodes) ->
+  list_sum (map (degree es) nodes) = (2 * length es)%nat.
 Proof.
-  intros [Hnd Hends]. unfold degrees. induction (g_edges g) as [|e es IH].
-  - simpl. induction (g_nodes g); simpl; auto.
+  intros Hnd. induction es as [|e es IH]; intros Hends.
+  - simpl. clear Hnd Hends. induction nodes; simpl; auto.
   - cbn [degree length]. rewrite list_sum_map_add, IH by (intros e' He'; apply Hends; right; exact He').
     destruct (Hends e (or_introl eq_refl)) as [H1 H2].
     unfold ends_at. rewrite list_sum_map_add, (sum_indicator (fst e)), (sum_indicator (snd e)) by assumption. lia.
 Qed.
+
+(* the degrees add up to twice the number of edges; a self-loop contributes 2 to its node *)
+Theorem handshake g : graph_wf g -> list_sum (degrees g) = (2 * length (g_edges g))%nat.
+Proof. intros [Hnd Hends]. apply handshake_lists; assumption. Qed.
 
 (* ------------------------------------------------------------ coefficients *)
 
@@ -103,23 +108,28 @@ Proof.
   unfold gf_from_network, net_coeffs, degrees. destruct (g_nodes g); simpl; [discriminate | lia].
 Qed.
 
+Lemma net_coeffs_Some degs cs : net_coeffs degs = Some cs ->
+  degs <> [] /\ cs = map (fun i => qn (count i degs) / qn (length degs)) (seq 0 (S (list_max degs))).
+Proof. destruct degs; [discriminate|]. intros [= <-]. split; [discriminate | reflexivity]. Qed.
+
 (* coefficient i is the fraction of nodes of degree i, for every i *)
 Theorem net_coeff g f : gf_from_network g = Some f ->
   forall i, coeff f i == qn (count i (degrees g)) / qn (length (g_nodes g)).
 Proof.
-  intros H i. assert (HN := degrees_nonempty g f H).
-  unfold gf_from_network, net_coeffs in H.
+  intros H i. unfold gf_from_network in H.
   assert (L : length (degrees g) = length (g_nodes g)) by (unfold degrees; apply map_length).
-  destruct (degrees g) as [|d l] eqn:E; [discriminate|]. injection H as <-.
+  destruct (net_coeffs (degrees g)) as [cs|] eqn:E; [|discriminate]. injection H as <-.
+  apply net_coeffs_Some in E. destruct E as [_ ->].
   rewrite coeff_from_coeffs, nth_map_seq, L.
-  destruct (Nat.ltb_spec i (S (list_max (d :: l)))); [reflexivity|].
+  destruct (Nat.ltb_spec i (S (list_max (degrees g)))); [reflexivity|].
   rewrite count_above by lia. unfold Qdiv. rewrite qn_0. ring.
 Qed.
 
 Lemma net_shape g f : gf_from_network g = Some f ->
   exists cs, f = from_coeffs cs /\ length cs = S (S (list_max (degrees g)) - 1)%nat.
 Proof.
-  unfold gf_from_network, net_coeffs. destruct (degrees g) as [|d l]; [discriminate|]. intros [= <-].
+  unfold gf_from_network. destruct (net_coeffs (degrees g)) as [cs|] eqn:E; [|discriminate]. intros [= <-].
+  apply net_coeffs_Some in E. destruct E as [_ ->].
   eexists. split; [reflexivity|]. rewrite map_length, seq_length. lia.
 Qed.
 
